@@ -500,6 +500,18 @@ def sb_LIST_EQ(eng, path, a, b):
 _rec = {}
 
 
+def cappos_entry(pat, fl, tx, k, ie, rel, j):
+    """the j-th candidate entry of CAPPOS for match k: (kept?, none?, captured text, start, end) - ONE definition, used by
+    the recursive function below and by the fold loop form (pvc/loops.py fold_for)"""
+    a = (pat, fl, tx, k)
+    none, gs, ge = RM.GNONE(*a, j), RM.GS(*a, j), RM.GE(*a, j)
+    sval = PYSLICE(tx, gs, ge)
+    keep = z3.Or(ie, none, sval != z3.StringVal(""))
+    off = RM.MSTART(*a)
+    shift = z3.And(rel, gs > -1)
+    return keep, none, sval, z3.If(shift, gs - off, gs), z3.If(shift, ge - off, ge)
+
+
 def rec_cappos():
     if "cp" in _rec:
         return _rec["cp"]
@@ -507,14 +519,9 @@ def rec_cappos():
     pat, tx = z3.Strings("cp_pat cp_tx")
     fl, k, j = z3.Ints("cp_fl cp_k cp_j")
     ie, rel = z3.Bools("cp_ie cp_rel")
-    a = (pat, fl, tx, k)
-    none, gs, ge = RM.GNONE(*a, j), RM.GS(*a, j), RM.GE(*a, j)
-    sval = PYSLICE(tx, gs, ge)
+    keep, none, sval, st_, en_ = cappos_entry(pat, fl, tx, k, ie, rel, j)
     grp = z3.If(none, V_NONE, V_STR(sval))
-    keep = z3.Or(ie, none, sval != z3.StringVal(""))
-    off = RM.MSTART(*a)
-    shift = z3.And(rel, gs > -1)
-    entry = V_TUP3(grp, V_INT(z3.If(shift, gs - off, gs)), V_INT(z3.If(shift, ge - off, ge)))
+    entry = V_TUP3(grp, V_INT(st_), V_INT(en_))
     prev = CP(pat, fl, tx, k, ie, rel, j - 1)
     z3.RecAddDefinition(CP, [pat, fl, tx, k, ie, rel, j], z3.If(j <= 0, NIL, z3.If(keep, APP(prev, entry), prev)))
     _rec["cp"] = CP
@@ -556,6 +563,52 @@ def rec_splits():
     z3.RecAddDefinition(SP, [pat, fl, tx, j], z3.If(j <= 0, NIL, APP(SP(pat, fl, tx, j - 1), piece)))
     _rec["sp"] = SP
     return SP
+
+
+def rec_capsplit():
+    """state of split_by_capture after the matches 0..k-1 and the groups 1..j of match k: the pieces so far (CSL) and the
+    position where the next piece starts (CSI); a group takes part iff it participated in the match and (include_empty or
+    its text is not empty)"""
+    if "cs" in _rec:
+        return _rec["cs"]
+    CSL = z3.RecFunction("CAPSPLIT_LIST", StrS, IntS, StrS, BoolS, IntS, IntS, L)
+    CSI = z3.RecFunction("CAPSPLIT_IDX", StrS, IntS, StrS, BoolS, IntS, IntS, IntS)
+    pat, tx = z3.Strings("cs_pat cs_tx")
+    fl, k, j = z3.Ints("cs_fl cs_k cs_j")
+    ie = z3.Bool("cs_ie")
+    a = (pat, fl, tx, k)
+    ng = RM.NGROUPS(pat)
+    none, gs, ge = RM.GNONE(*a, j), RM.GS(*a, j), RM.GE(*a, j)
+    takes = z3.And(z3.Not(none), z3.Or(ie, PYSLICE(tx, gs, ge) != z3.StringVal("")))
+    pl, pi = CSL(pat, fl, tx, ie, k, j - 1), CSI(pat, fl, tx, ie, k, j - 1)
+    z3.RecAddDefinition(CSL, [pat, fl, tx, ie, k, j],
+                        z3.If(j <= 0, z3.If(k <= 0, NIL, CSL(pat, fl, tx, ie, k - 1, ng)),
+                              z3.If(takes, APP(pl, V_STR(PYSLICE(tx, pi, z3.If(gs < pi, pi, gs)))), pl)))      # text[pi:gs]
+    z3.RecAddDefinition(CSI, [pat, fl, tx, ie, k, j],
+                        z3.If(j <= 0, z3.If(k <= 0, z3.IntVal(0), CSI(pat, fl, tx, ie, k - 1, ng)),
+                              z3.If(takes, ge, pi)))
+    _rec["cs"] = (CSL, CSI)
+    return _rec["cs"]
+
+
+def _csargs(eng, path, p, text, ie, k, j):
+    return (str_term(sb_TEXT(eng, path, p)), z3.IntVal(FLAGS_MS), str_term(text), zterm(ie), zterm(k), zterm(j))
+
+
+def sb_CAPSPLIT_LIST(eng, path, p, text, ie, k, j):
+    return TermList(rec_capsplit()[0](*_csargs(eng, path, p, text, ie, k, j)))
+
+
+def sb_CAPSPLIT_IDX(eng, path, p, text, ie, k, j):
+    return rec_capsplit()[1](*_csargs(eng, path, p, text, ie, k, j))
+
+
+def sb_SPLIT_BY_CAPTURE_SPEC(eng, path, p, text, ie):
+    """the pieces of the text between the spans of the captures that take part, in order, and the rest of the text"""
+    n = RM.NMATCH(str_term(sb_TEXT(eng, path, p)), z3.IntVal(FLAGS_MS), str_term(text))
+    a = _csargs(eng, path, p, text, ie, n, 0)
+    t = str_term(text)
+    return TermList(APP(rec_capsplit()[0](*a), V_STR(PYSLICE(t, rec_capsplit()[1](*a), z3.Length(t)))))
 
 
 def _margs(eng, path, m):
@@ -1019,6 +1072,24 @@ def sb_CPREFIX_OUT(eng, path, lst, upto, lo, hi):
     k = z3.Int("k!cpo")
     c = zterm(g(k).code)
     return z3.ForAll([k], z3.Implies(z3.And(k >= 0, k < zterm(upto)), z3.Not(z3.And(zterm(lo.code) <= c, c <= zterm(hi.code)))))
+
+
+def sb_RDISJ(eng, path, a, upto_a, b, upto_b):
+    """every range a[k], k < upto_a, is disjoint from every range b[m], m < upto_b (element-wise, no views)"""
+    na, ga = _seq_of(a)
+    nb, gb = _seq_of(b)
+    k, m = z3.Int("k!rd"), z3.Int("m!rd")
+    lo1, hi1 = as_pair(ga(k))
+    lo2, hi2 = as_pair(gb(m))
+    return z3.ForAll([k, m], z3.Implies(z3.And(k >= 0, k < zterm(upto_a), m >= 0, m < zterm(upto_b)), z3.Or(hi1 < lo2, hi2 < lo1)))
+
+
+def sb_RDISJ_ONE(eng, path, b, upto_b, lo, hi):
+    """every range b[m], m < upto_b, is disjoint from lo..hi"""
+    nb, gb = _seq_of(b)
+    m = z3.Int("m!rd1")
+    lo2, hi2 = as_pair(gb(m))
+    return z3.ForAll([m], z3.Implies(z3.And(m >= 0, m < zterm(upto_b)), z3.Or(zterm(hi.code) < lo2, hi2 < zterm(lo.code))))
 
 
 def sb_CLIST_OUT(eng, path, chars, ranges, upto):
